@@ -3,6 +3,8 @@
 //        explore <workers> <scripts>          <mode> <spurious budget> sched  "<names...>" <tail steps>
 // mode 0: the owner waits until every dispatched item has been handled, then destroys the dispatcher;
 // mode 1: the owner may start the destruction at any moment (items may legitimately stay unhandled).
+// mode 2: as mode 0, and every item is a RENDEZVOUS job: the k-th handler entered returns only when (k / workers + 1) * workers
+//         handlers have been entered -- so a consumer that sleeps through a push (lost wake-up) shows as "no thread can move".
 // Output: "T <thread> <label>" per step, notes, then a verdict block read by harness/c15search.py:
 //   WORKER_EXIT_ALIVE <name> <step>   a worker left its loop before the destruction began
 //   DEADLOCK <step> <thread:label ...> no thread can move (without a spurious wake-up) and the owner has not finished
@@ -27,6 +29,7 @@ struct Item { int id; };
 static std::vector<std::string> g_log;
 static int g_handled = 0, g_total = 0;
 static bool g_destroying = false;      // the owner has decided to destroy the dispatcher (set by the probe, not read off the headers)
+static int g_mode = 0, g_workers = 0, g_arrived = 0;
 static int g_part = 0;                 // derived part of the dispatcher: 0 alive, 1 being destroyed, 2 destroyed
 static std::string g_hazard;
 static void hazard(const std::string& what) { if (g_hazard.empty()) g_hazard = what; }
@@ -47,6 +50,10 @@ protected:
         std::string w = verif::Sched::self()->name.substr(1);
         if (g_part != 0) hazard("W" + w + " calls the virtual handle_dispatch(item " + std::to_string(item->id) + ") while the derived part is being destroyed");
         g_log.push_back("B " + w + " " + std::to_string(item->id));
+        if (g_mode == 2) {
+            int need = (g_arrived++ / g_workers + 1) * g_workers;
+            verif::yield("Rendezvous", [need] { return g_arrived >= need; });
+        }
         verif::yield("HandlerEnd");
         if (g_part != 0) hazard("W" + w + " is inside the derived handler (item " + std::to_string(item->id) + ") while the derived part is being destroyed");
         g_log.push_back("E " + w + " " + std::to_string(item->id));
@@ -74,6 +81,7 @@ int main(int argc, char** argv) {
         for (auto& p : split(argv[2], ';')) { std::vector<int> sc; for (auto& x : split(p, ',')) if (!x.empty()) sc.push_back(atoi(x.c_str())); scripts.push_back(sc); }
     for (auto& sc : scripts) g_total += (int)sc.size();
     int mode = atoi(argv[3]);
+    g_mode = mode; g_workers = workers;
     auto& S = verif::Sched::get();
     S.spurious_left = atoi(argv[4]);
     bool random = std::string(argv[5]) == "random";
@@ -93,7 +101,7 @@ int main(int argc, char** argv) {
                         if (k % 2) d.dispatch(Item{id}); else { Disp::ptr_type q(new Item{id}); d.dispatch(q); }
                     }
                 });
-            if (mode == 0) verif::yield("AwaitHandled", [] { return g_handled == g_total; });
+            if (mode == 0 || mode == 2) verif::yield("AwaitHandled", [] { return g_handled == g_total; });
             else verif::yield("BeginDestroy");
             g_destroying = true;
         }   // ~Disp, derived members, ~threaded_dispatcher
